@@ -79,6 +79,24 @@ class C05Runner(HistoryRunner):
 				if (rec.get('error') or {}).get('cls') != (cold.get('error') or {}).get('cls'):
 					self.bump('probes', 'both fail, different error class (not judged)')
 
+	def judge_loop(self, i: int, op: dict[str, Any], loop_result: tuple, separate_result: tuple) -> None:
+		"""The last run of a build loop is a run with the cache files its predecessors left behind: it must equal the cold run. When the same
+		steps as separate processes already deviate (judged, known or not, on the ordinary path) and the loop shows the same result, nothing is added."""
+		status, outputs, error = loop_result
+		if status == 'timeout':
+			self.violation('run-does-not-terminate', i, {'loop': True})
+			return
+		cold = self.cold.get(self.proj.state, modules=self.order)
+		same_as_cold = (status == cold['status']) and (status != 'ok' or outputs == cold['outputs'])
+		same_as_separate = (status == separate_result[0]) and (status != 'ok' or outputs == separate_result[1])
+		if same_as_cold:
+			self.bump('probes', 'build loop == cold')
+		elif same_as_separate:
+			self.bump('probes', 'build loop deviates exactly like the separate-process history (judged there)')
+		else:
+			detail = first_diff(outputs, cold['outputs']) if status == 'ok' and cold['status'] == 'ok' else {'loop_status': status, 'cold_status': cold['status'], 'error': error}
+			self.violation('build-loop-output-differs', i, {**detail, 'runs_in_one_process': sum(1 for st in op['steps'] if st['op'] == 'run')}, sig=detail.get('file', ''))
+
 	def raise_or_known(self, vclass: str, ctx: dict[str, Any], detail: dict[str, Any]) -> None:
 		"""Compensated mode: neutralise exactly the effect the known finding describes and re-run from the same snapshot."""
 		known = None
@@ -110,12 +128,12 @@ def op_run(enabled: bool = True, fault: dict[str, Any] | None = None) -> dict[st
 
 class C05(Engine):
 	prop = 'C05'
-	rule = ('case = one history (4-14 ops: edit/touch/run/clear/lose/truncate, runs optionally with one injected fault) over a generated module pool; '
+	rule = ('case = one history (4-14 ops: edit/touch/run/clear/lose/truncate/sweep/loop (several runs inside one process), runs optionally with one injected fault) over a generated module pool; '
 		'every run is compared with the same run from an empty cache. distinct_nontrivial = distinct op-kind/fault-kind sequences that contain '
 		'at least one state-changing op (edit of content, clear, lost file, fault) between two judged runs')
 	quick_runs = 70
 	thorough_runs = 2500
-	quick_budget_s = 70.0
+	quick_budget_s = 110.0
 	thorough_budget_s = 1700.0
 	components_real = ['Runner', 'CacheProvider/CachedProxy/CachedDummy', 'SyntaxParserOfLark + Lark pickle save/load', 'SymbolDBPersistor', 'RestoreSymbols/StoreSymbols and the other preprocessors', 'FileLoader', 'Module.identity', 'Py2Cpp + Jinja renderer', 'Writer', 'real file system (tmpfs)']
 	components_stubbed = Engine.components_stubbed + ['builtins.open / os.unlink / os.makedirs / time.sleep interposed (trace + injected faults)', 'mtimes assigned by the simulated clock (os.utime)']
@@ -216,6 +234,14 @@ class C05(Engine):
 					combos = combos[which::step]
 				for nth, kind, km in combos:
 					cases.append({'pool': pool, 'kind': 'enumeration', 'ops': pre + [op_run(fault={'kind': kind, 'nth': nth, 'kmode': km}), op_run()]})
+		# build loops: the same interpreter issues several runs, sources edited in between (process-wide memos must not outlive a run)
+		for which in ((0,) if getattr(self, 'tier', 'quick') == 'quick' else (0, 1, 3)):
+			pool = pools.fixed_pool(which)
+			mods = pools.core(pool)
+			top, leaf = mods[0], mods[-1]
+			E = lambda m, v: {'op': 'edit', 'm': m, 'v': v, 'dt': 10**9}
+			cases.append({'pool': pool, 'kind': 'loop', 'ops': [{'op': 'loop', 'steps': [op_run(), E(leaf, 1), op_run()]}]})
+			cases.append({'pool': pool, 'kind': 'loop', 'ops': [op_run(), {'op': 'loop', 'steps': [op_run(), E(top, 1), op_run(), E(leaf, 2), E(top, 2), op_run()]}, op_run()]})
 		# truncation pass: each class of cache file cut at byte offsets (head, interior, tail), then a normal run
 		quick = getattr(self, 'tier', 'quick') == 'quick'
 		offs: list[tuple[str, int]] = [('abs', 0), ('abs', 1), ('frac', 5000), ('end', 1)] if quick else \
@@ -269,6 +295,14 @@ class C05(Engine):
 				ops.append(op_run(enabled, fault))
 			elif r == 'clear':
 				ops.append({'op': 'clear'})
+			elif rng.random() < 0.25:
+				steps: list[dict[str, Any]] = [op_run()]
+				for _ in range(rng.randint(1, 3)):
+					for _ in range(rng.randint(1, 2)):
+						m = rng.choice(mods)
+						steps.append({'op': 'edit', 'm': m, 'v': rng.randrange(len(pool['variants'][m])), 'dt': rng.choice(deltas)})
+					steps.append(op_run())
+				ops.append({'op': 'loop', 'steps': steps})
 			elif faulty and rng.random() < 0.4:
 				mode = rng.choice(['abs', 'end', 'frac'])
 				ops.append({'op': 'truncate', 'cls': rng.choice(['tree', 'symbols', 'parser']), 'pick': round(rng.random(), 4), 'zeros': rng.random() < 0.2,
